@@ -446,6 +446,17 @@ def run_shard(args):
         }
 
 
+def _strict_json(x):
+    """Non-finite floats as text, so that the evidence is strict JSON (readable by any parser)."""
+    if isinstance(x, float) and not math.isfinite(x):
+        return repr(x)
+    if isinstance(x, dict):
+        return {k: _strict_json(v) for k, v in x.items()}
+    if isinstance(x, (list, tuple)):
+        return [_strict_json(v) for v in x]
+    return x
+
+
 def _jsonable(x):
     return json.loads(json.dumps(x, default=_json_default))
 
@@ -686,7 +697,7 @@ def run_property(prop: str, tier: str, seed: int, only_facets=None, scale: float
     ev_dir = OUT / "evidence"
     ev_dir.mkdir(parents=True, exist_ok=True)
     if not only_facets:
-        (ev_dir / f"{prop}.json").write_text(json.dumps(evidence, indent=1, default=_json_default) + "\n")
+        (ev_dir / f"{prop}.json").write_text(json.dumps(_strict_json(_jsonable(evidence)), indent=1, allow_nan=False) + "\n")
 
     for name, pf in per_facet.items():
         print(
